@@ -74,6 +74,10 @@ pub struct RunCfg {
     pub crash_after_first_block: Option<(usize, u64)>,
     /// see `SchedState::late_diss`
     pub late_diss: Option<(BTreeSet<usize>, Duration)>,
+    /// lagging node: (validator, from, until, votes_only). Its all-to-all traffic sent in [from, until) is
+    /// held until `until`; 500 ms before that the adversary feeds it in an adversarial order
+    /// (`adversary::laggard_feed`)
+    pub laggard: Option<(usize, Duration, Duration, bool)>,
     pub label: String,
 }
 
@@ -119,6 +123,8 @@ pub struct RunOut {
     pub hostile_roles: BTreeSet<String>,
     /// None = no probe made; Some(answered)
     pub probe: Option<bool>,
+    /// lagging-node scenario: (slot fed as finalized, messages fed, certificates the node should hold but does not)
+    pub laggard: Option<(u64, usize, Vec<String>)>,
     pub routes: BTreeMap<(u64, u64, u64), crate::cluster::ShredRoute>,
 }
 
@@ -151,6 +157,7 @@ pub async fn execute(cfg: &RunCfg, rng: &mut SRng) -> RunOut {
         delivered_late: 0,
         slow_diss: cfg.slow_diss,
         late_diss: cfg.late_diss.clone(),
+        laggard: cfg.laggard.map(|(v, a, b, votes_only)| (v, a, b, votes_only)),
         rival: cfg.rival.as_ref().map(|r| RivalSched { pair: (r.u, r.a), slot: None, vote_delay: Duration::from_millis(5000), cert_delay: Duration::from_millis(rng.random_range(150..380)), held_votes: 0, held_certs: 0, next_leader: (r.z + 1) % n, hash_a: None, hold_a: Duration::from_millis(450) }),
     }));
     cl.log.lock().unwrap().track_routes = cfg.track_routes;
@@ -183,6 +190,9 @@ pub async fn execute(cfg: &RunCfg, rng: &mut SRng) -> RunOut {
     let mut now = Duration::ZERO;
     let mut crashes = cfg.crashes.clone();
     let mut dyn_crash_at: Option<Duration> = None;
+    let mut lag_fed = false;
+    let mut lag_info: Option<(u64, usize, Vec<String>)> = None;
+    let mut lag_check_at: Option<Duration> = None;
     let mut tx_acc = 0f64;
     let mut max_slot_seen = 0u64;
     let mut hostile_sent: BTreeMap<String, u64> = BTreeMap::new();
@@ -239,6 +249,48 @@ pub async fn execute(cfg: &RunCfg, rng: &mut SRng) -> RunOut {
                 byz_certs(&cl, &mut byz, rng, max_slot_seen.saturating_sub(12), cfg.rival.is_some());
             }
         }
+        if let Some((node, _from, until, votes_only)) = cfg.laggard {
+            if !lag_fed && now + Duration::from_millis(500) >= until && !cl.crashed.contains(&node) {
+                lag_fed = true;
+                let (fs, sent) = laggard_feed(&cl, &byz, rng, node, votes_only);
+                lag_info = Some((fs, sent, Vec::new()));
+                lag_check_at = Some(now + Duration::from_millis(300));
+            }
+            if lag_check_at.is_some_and(|t| t <= now) && !cl.crashed.contains(&node) {
+                lag_check_at = None;
+                // C03 at node level: what the votes delivered to the node justify, it must hold (for the slots it
+                // still retains)
+                let snap = cl.nodes[&node].pool.read().await.verif_snapshot(usize::MAX);
+                let first_unpruned = snap.first_unpruned_slot.inner();
+                let held: BTreeSet<(CK, u64, Option<H32>)> = snap.certs.iter().map(crate::poolsim::mcert_of).map(|c| (c.kind, c.slot, if c.kind == CK::NotarFallback || c.kind == CK::Notar || c.kind == CK::FastFinal { c.hash } else { None })).collect();
+                let mut by_key: BTreeMap<(VK, u64, Option<H32>), BTreeSet<usize>> = BTreeMap::new();
+                {
+                    let l = cl.log.lock().unwrap();
+                    for (_, to, v) in l.votes_delivered.iter() {
+                        if *to == node && v.slot >= first_unpruned && v.signer < n {
+                            by_key.entry((v.kind, v.slot, v.hash)).or_default().insert(v.signer);
+                        }
+                    }
+                }
+                let total = cfg.ep.total();
+                let st = |s: &BTreeSet<usize>| -> u128 { s.iter().map(|i| cfg.ep.stakes[*i] as u128).sum() };
+                let mut missing = Vec::new();
+                for ((k, slot, h), voters) in &by_key {
+                    if *k == VK::Notar && st(voters) * 5 >= 3 * total && !held.contains(&(CK::Notar, *slot, *h)) && !held.iter().any(|c| c.0 == CK::Notar && c.1 == *slot) {
+                        missing.push(format!("notar@{slot}"));
+                    }
+                    if *k == VK::Skip && st(voters) * 5 >= 3 * total && !held.contains(&(CK::Skip, *slot, None)) {
+                        missing.push(format!("skip@{slot}"));
+                    }
+                    if *k == VK::Final && st(voters) * 5 >= 3 * total && !held.contains(&(CK::Final, *slot, None)) {
+                        missing.push(format!("final@{slot}"));
+                    }
+                }
+                if let Some(li) = lag_info.as_mut() {
+                    li.2 = missing;
+                }
+            }
+        }
         // Byzantine leaders: act when the previous window is being voted on
         {
             let seen_max = { cl.log.lock().unwrap().votes_sent.iter().map(|v| v.2.slot).max().unwrap_or(0) };
@@ -252,7 +304,8 @@ pub async fn execute(cfg: &RunCfg, rng: &mut SRng) -> RunOut {
             if cfg.byz.contains(&leader) && trigger && led_windows.insert(w) && cfg.byz_leader != ByzLeader::Silent {
                 // parent: the most recent block seen in honest votes
                 let mut parent: Bid = byz.seen_blocks.iter().filter(|b| b.0 < w * 4).max_by_key(|b| b.0).copied().unwrap_or((0, [0; 32]));
-                if cfg.byz_leader == ByzLeader::OldParent {
+                let jump_inside = rng.random_bool(0.5);
+                if cfg.byz_leader == ByzLeader::OldParent && !jump_inside {
                     // bypass the tip: the most recent block of an earlier slot than the tip's
                     if let Some(older) = byz.seen_blocks.iter().filter(|b| b.0 < parent.0).max_by_key(|b| b.0).copied() {
                         parent = older;
@@ -260,14 +313,20 @@ pub async fn execute(cfg: &RunCfg, rng: &mut SRng) -> RunOut {
                 }
                 let targets = cl.correct();
                 let mut par = parent;
+                let mut own_chain: Vec<Bid> = Vec::new();
                 let base = now + Duration::from_millis(if cfg.byz_leader == ByzLeader::Late { 1200 } else { 60 });
                 for (k, slot) in (w * 4..w * 4 + 4).enumerate() {
                     let at = base + Duration::from_millis(400 * k as u64);
                     if cfg.byz_leader == ByzLeader::RivalSplit && k > 0 {
                         break;
                     }
+                    if cfg.byz_leader == ByzLeader::OldParent && k == 2 && own_chain.len() == 2 && jump_inside {
+                        // ... and inside the window: the third block extends the first, jumping over the second
+                        par = own_chain[0];
+                    }
                     let a = byz_block(rng, &cfg.ep, leader, slot, par, 1);
                     byz_blocks.push(((slot, a.hash), par));
+                    own_chain.push((slot, a.hash));
                     if cfg.byz_leader == ByzLeader::TwoBlocksLastSlot && k == 3 {
                         let b = byz_block(rng, &cfg.ep, leader, slot, par, 2);
                         byz_blocks.push(((slot, b.hash), par));
@@ -422,6 +481,7 @@ pub async fn execute(cfg: &RunCfg, rng: &mut SRng) -> RunOut {
         hostile_sent,
         hostile_roles,
         probe,
+        laggard: lag_info,
         routes: std::mem::take(&mut l.routes),
     }
 }
